@@ -403,6 +403,18 @@ fn vp_native_host_inside_tunnel_body() {
 fn vp_native_settings_flow() { crate::verif_native_watchdog::watched(vp_native_settings_flow_body); }
 fn vp_native_settings_flow_body() {
     let mut cases = 0u64;
+    // Accept-Encoding: gzip, deflate is announced exactly when compression is allowed - whatever the method and whatever else the
+    // request carries
+    for m in ["GET", "POST", "PUT", "DELETE", "HEAD", "OPTIONS", "PATCH", "TRACE"] { for allow in [true, false] { for extra in [None, Some(("Range", "bytes=0-9")), Some(("If-Range", "x")), Some(("Accept", "text/x")), Some(("TE", "trailers")), Some(("Connection", "keep-alive"))] { for on_session in [false, true] {
+        let mut s = crate::Session::new();
+        if on_session { s.allow_compression(allow); if let Some((n, v)) = extra { s.header(n, v); } }
+        let u = "http://h.test/";
+        let mut b = match m { "GET" => s.get(u), "POST" => s.post(u), "PUT" => s.put(u), "DELETE" => s.delete(u), "HEAD" => s.head(u), "OPTIONS" => s.options(u), "PATCH" => s.patch(u), _ => s.trace(u) };
+        if !on_session { b = b.allow_compression(allow); if let Some((n, v)) = extra { b = b.header(n, v); } }
+        let p = b.prepare(); cases += 1;
+        let ae: Vec<&[u8]> = p.headers().get_all("accept-encoding").iter().map(|v| v.as_bytes()).collect();
+        assert_eq!(ae, if allow { vec![&b"gzip, deflate"[..]] } else { vec![] }, "Accept-Encoding of a {} request with allow_compression({}) set on the {} and extra header {:?}", m, allow, if on_session { "session" } else { "request" }, extra);
+    } } } }
     for first in [1usize, 7] { for second in [2usize, 9] { for follow in [true, false] { for compress in [true, false] {
         let mut s = crate::Session::new();
         s.max_headers(first); s.follow_redirects(follow); s.allow_compression(compress);
@@ -1116,7 +1128,9 @@ fn vp_native_connect_refusals_body() {
     }
     // reply heads that are truncated or garbage: an error, and nothing further is sent
     for junk in [&b""[..], b"HTTP/1.1 200", b"HTTP/1.1 200 OK\r\n", b"HTTP/1.1 200 OK\r\nX: y", b"HTTP/1.1 200 OK\r\nX: y\r\n", b"HTTP/1.1 200 OK\r\nX: y\r\nZ: w\r\n", b"HTTP/1.1 200 OK\r\nX: y\r",
-                 b"garbage\r\n\r\n", b"HTTP/1.1 abc OK\r\n\r\n", b"\r\n\r\n"] {
+                 b"garbage\r\n\r\n", b"HTTP/1.1 abc OK\r\n\r\n", b"\r\n\r\n",
+                 // status tokens that are not three digits: not a status, so not an agreement to tunnel
+                 b"HTTP/1.1 +200 OK\r\n\r\n", b"HTTP/1.1 0200 OK\r\n\r\n", b"HTTP/1.1 000204 OK\r\n\r\n", b"HTTP/1.1 20 OK\r\n\r\n", b"HTTP/1.1 2000 OK\r\n\r\n", b"HTTP/1.1 -200 OK\r\n\r\n", b"HTTP/1.1 2e2 OK\r\n\r\n", b"HTTP/1.1 0403 Forbidden\r\n\r\n"] {
         let log = Arc::new(Mutex::new(Vec::new()));
         let j = junk.to_vec();
         let proxy = serve(log.clone(), move |_, _| j.clone());
